@@ -2050,6 +2050,12 @@ EbErrorType read_uncompressed_header(Bitstrm *bs, EbDecHandle *dec_handle_ptr, O
              seq_header->color_config.subsampling_y == 0)
         dec_handle_ptr->dec_config.max_color_format = EB_YUV444;
 
+    /* every buffer was sized from the sequence header's maximum frame size */
+    if (frame_info->frame_size.superres_upscaled_width > seq_header->max_frame_width ||
+        frame_info->frame_size.frame_width > seq_header->max_frame_width ||
+        frame_info->frame_size.frame_height > seq_header->max_frame_height)
+        return EB_Corrupt_Frame;
+
     dec_handle_ptr->cur_pic_buf[0] = dec_pic_mgr_get_cur_pic(dec_handle_ptr);
     if (dec_handle_ptr->cur_pic_buf[0] == NULL)
         return EB_ErrorInsufficientResources;
